@@ -157,7 +157,17 @@ impl<'a, L> Engine<'a, L> {
         // check that candidate compound literals are indeed compound literels
         if self.options.rdf_direction() == Some(RdfDirection::CompoundLiteral) {
             let mut compound_literals = std::mem::take(&mut self.compound_literals);
-            compound_literals.retain(|is| is_compound_literal(&self.node[*is]));
+            compound_literals.retain(|is| {
+                let (g_id, s_id) = &self.gs_id[*is];
+                // (it must also be referenced exactly once, from the graph describing it,
+                // as it is only rendered in place of that reference)
+                is_compound_literal(&self.node[*is])
+                    && self.described.get(s_id) == Some(&1)
+                    && matches!(
+                        self.unique_parent.get(s_id),
+                        Some(Some((iparent, _))) if &self.gs_id[*iparent].0 == g_id
+                    )
+            });
             self.compound_literals = compound_literals;
         }
 
